@@ -25,6 +25,7 @@ QUICK_CAP = int(os.environ.get("VERIF_QUICK_CAP", "600"))      # seconds per har
 THOROUGH_CAP = int(os.environ.get("VERIF_THOROUGH_CAP", "3600"))
 MEM_GB = int(os.environ.get("VERIF_MEM_GB", "12"))
 JOBS = int(os.environ.get("VERIF_JOBS", "12"))
+PLAYBACK_MEM_GB = int(os.environ.get("VERIF_PLAYBACK_MEM_GB", "44"))
 
 
 def log(*a):
@@ -187,7 +188,8 @@ def classify(h, res, rc, timed_out, out):
         if "out of memory" in out.lower() or "bad_alloc" in out or "std::bad_alloc" in out:
             note = "CBMC out of memory"
         if "error: could not compile" in out or "error[E" in out:
-            note = "build failure"
+            errs = re.findall(r"^(error(?:\[E\d+\])?: .*)$", out, re.M)
+            note = "build failure: " + " | ".join(errs[:3])
         return "error", [], [note]
     cap = [c for c in failed if "VSHIM-CAPACITY" in c["desc"]]
     unw = [c for c in failed if ".unwind." in c["name"] or "unwinding assertion" in c["desc"]]
@@ -229,15 +231,8 @@ def verify_one(h, crate_dir, scratch, cap):
             "vccs": res["vccs"], "vccs_remaining": res["vccs_remaining"], "sat_variables": res["variables"],
             "sat_clauses": res["clauses"], "solver_s": round(res["solver_s"], 3), "symex_s": res["symex_s"],
             "program_steps": res["steps"], "log": logp}
-    vals = []
-    if status in ("fail",) or (status == "unwind" and h["kind"] == "termination"):
-        # ask the solver for the concrete values of the counterexample(s)
-        logp2 = os.path.join(scratch, h["name"] + ".playback.log")
-        rc2, out2, to2, _ = run_limited(kani_cmd(h, tdir, ["-Z", "concrete-playback", "--concrete-playback=print"]),
-                                        crate_dir, cap, logp2)
-        vals = parse_playback(out2)
-    info["counterexamples"] = vals
-    shutil.rmtree(tdir, ignore_errors=True)
+    info["counterexamples"] = []
+    info["_tdir"] = tdir
     return info
 
 
@@ -346,6 +341,16 @@ def run_property(pid, tier="quick", seed=0):
                 log("[%s] %-34s %-9s %6.1fs  checks=%s vccs=%s solver=%.2fs %s" % (
                     pid, info["harness"], info["status"], info["wall_s"], info["checks"], info["vccs"],
                     info["solver_s"], "; ".join(info["notes"])))
+        # counterexample extraction: one at a time (trace generation needs far more memory than the verdict)
+        for h, info in zip(hs, infos):
+            if info["status"] == "fail" or (info["status"] == "unwind" and h["kind"] == "termination"):
+                logp2 = os.path.join(scratch, h["name"] + ".playback.log")
+                rc2, out2, to2, _ = run_limited(kani_cmd(h, info["_tdir"], ["-Z", "concrete-playback", "--concrete-playback=print"]),
+                                                os.path.join(scratch, "crate-" + h["mode"]), cap, logp2, mem_gb=PLAYBACK_MEM_GB)
+                info["counterexamples"] = parse_playback(out2)
+                if not info["counterexamples"]:
+                    info["notes"].append("concrete playback produced no values" + (" (out of memory)" if "out of memory" in out2.lower() else ""))
+            shutil.rmtree(info.pop("_tdir"), ignore_errors=True)
         rp = Replayer(scratch)
         violations, inconclusive, known_lines = [], [], []
         for info in infos:
